@@ -393,8 +393,12 @@ pub fn cache_async(attr: TokenStream, item: TokenStream) -> TokenStream {
                 cachelito_core::InvalidationRegistry::global().register_callback(
                     #fn_name_str,
                     move || {
+                        // Empty map and queue in ONE critical section of the queue lock (which
+                        // every insert holds): a concurrent insert between two separate steps
+                        // would leave a stored key the queue does not know
+                        let mut order = #order_ident.lock();
                         #cache_ident.clear();
-                        #order_ident.lock().clear();
+                        order.clear();
                     }
                 );
             });
